@@ -62,6 +62,22 @@ void __wrap_psAesReadyGCM(psAesGcm_t *ctx, const unsigned char IV[AES_IVLEN], co
     g_ctx[s].ready = 1;
     __real_psAesReadyGCM(ctx, IV, aad, aadLen);
 }
+/* Used by the TLS 1.3 session-ticket sealing code: draws the IV from the PRNG and readies the context (its call of
+   psAesReadyGCM is inside the same object file and therefore not seen by the wrapper above). */
+int32_t __real_psAesReadyGCMRandomIV(psAesGcm_t *ctx, unsigned char IV[12], const unsigned char *aad, psSize_t aadLen, void *poolUserPtr);
+int32_t __wrap_psAesReadyGCMRandomIV(psAesGcm_t *ctx, unsigned char IV[12], const unsigned char *aad, psSize_t aadLen, void *poolUserPtr)
+{
+    int32_t rc = __real_psAesReadyGCMRandomIV(ctx, IV, aad, aadLen, poolUserPtr);
+    if (rc == PS_SUCCESS)
+    {
+        int s = ctx_slot(ctx, 1);
+        memcpy(g_ctx[s].nonce, IV, 12);
+        g_ctx[s].aad_h = fnv(aad ? aad : (const unsigned char *) "", aad ? aadLen : 0, 7);
+        memset(g_ctx[s].aad, 0, 16); if (aad) memcpy(g_ctx[s].aad, aad, aadLen < 16 ? aadLen : 16);
+        g_ctx[s].ready = 1;
+    }
+    return rc;
+}
 void __real_psAesEncryptGCM(psAesGcm_t *ctx, const unsigned char *pt, unsigned char *ct, uint32_t len);
 void __wrap_psAesEncryptGCM(psAesGcm_t *ctx, const unsigned char *pt, unsigned char *ct, uint32_t len)
 {
